@@ -893,6 +893,10 @@ class FortranReaderBase:
                 self.reader = FortranFileReader(
                     path, include_dirs=include_dirs, ignore_comments=ignore_comments
                 )
+                # The included text replaces the INCLUDE line, so it is in
+                # the source form of the including file (a fragment need
+                # not contain enough evidence to detect the form itself).
+                self.reader.set_format(self.format)
                 result = self.reader.next(ignore_comments=ignore_comments)
                 return result
             return item
